@@ -39,7 +39,8 @@ REQUIRED = ['recursiveloader:ManifestRecursiveLoader.save_manifests',
             'presave_phases_audited', 'saves_audited', 'conservation_checked',
             'failing_updates', 'cli_histories', 'cli_multi_histories',
             'histories_in_other_tz', 'histories_with_profile', 'adopt_cases',
-            'createfault_fired', 'dangling_cases']
+            'createfault_fired', 'dangling_cases', 'signfail_cases', 'forcestale_cases',
+            'locale_cases']
 ASSUMPTIONS = ['writes by child processes are invisible to the audit hook; the '
                'snapshot comparison covers them',
                '"Manifest file" = a file named Manifest[.gz|.bz2|.lzma|.xz] or referenced '
@@ -58,7 +59,8 @@ PER_UNIT = 15
 def units(tier, seed):
     return [{'k': 'gen', 'i': i, 'n': PER_UNIT} for i in range(N[tier] // PER_UNIT)] + \
         [{'k': 'multi', 'i': i, 'n': 6} for i in range(4 if tier == 'quick' else 100)] + \
-        [{'k': 'adopt'}, {'k': 'createfault'}, {'k': 'dangling'}, {'k': 'signfail'}]
+        [{'k': 'adopt'}, {'k': 'createfault'}, {'k': 'dangling'}, {'k': 'signfail'},
+         {'k': 'forcestale'}, {'k': 'locale'}]
 
 
 def setup_worker(ctx):
@@ -912,6 +914,123 @@ def run_signfail(u, ctx):
             exec_signfail(ctx, {'kind': 'signfail', 'how': how, 'api': api})
 
 
+def exec_forcestale(ctx, case):
+    """Updating one sub-directory and saving with force (which rewrites every Manifest)
+    when ANOTHER sub-Manifest, not on the chain above the updated directory, was edited
+    behind the back of its MANIFEST entry: that entry is outside the updated directory
+    and must not come out changed."""
+    from gemato import cli as gcli
+    from gemato.recursiveloader import ManifestRecursiveLoader
+    with common.Scratch('vf-c10s-') as d:
+        root = os.path.join(d, 't')
+        for sub in ('sub', 'other'):
+            os.makedirs(os.path.join(root, sub))
+            with open(os.path.join(root, sub, 'f'), 'wb') as f:
+                f.write(sub.encode())
+        texts = {}
+        for sub in ('sub', 'other'):
+            texts[sub] = mtext.render([mtext.file_entry('DATA', 'f', sub.encode(),
+                                                        ['SHA256'])]).encode()
+            with open(os.path.join(root, sub, 'Manifest'), 'wb') as f:
+                f.write(texts[sub])
+        with open(os.path.join(root, 'Manifest'), 'w') as f:
+            f.write(mtext.render([mtext.file_entry('MANIFEST', s + '/Manifest', texts[s],
+                                                   ['SHA256']) for s in ('sub', 'other')]))
+        # the foreign edit: another file, another line
+        with open(os.path.join(root, 'other', 'Manifest'), 'ab') as f:
+            f.write(b'DIST injected.tar 1 MD5 ' + b'ab' * 16 + b'\n')
+        with open(os.path.join(root, 'sub', 'new'), 'w') as f:
+            f.write('new')
+        before = file_entries(manifest_state(root)).get('other/Manifest')
+        ctx.case(sig=('forcestale', case['api']), case=case, klass='forcestale')
+        ctx.count('forcestale_cases')
+        try:
+            if case['api'] == 'cli':
+                rc = gcli.main(['gemato', 'update', '-f', '--hashes', 'SHA256',
+                                os.path.join(root, 'sub')])
+            else:
+                m = ManifestRecursiveLoader(os.path.join(root, 'Manifest'),
+                                            verify_openpgp=False, hashes=['SHA256'])
+                m.update_entries_for_directory('sub')
+                m.save_manifests(force=True)
+                rc = 0
+        except SystemExit:
+            rc = 'exit'
+        except Exception as exc:
+            rc = exc
+        after = file_entries(manifest_state(root)).get('other/Manifest')
+        if after != before:
+            ctx.violation('out-of-scope-entry-changed:forced-save-blessed-stale-manifest',
+                          'update of sub/ + forced save (result %r) changed the MANIFEST '
+                          'entry of other/Manifest, which had been edited behind its '
+                          'back: %r -> %r' % (rc, before, after), case)
+
+
+def exec_locale(ctx, case):
+    """Manifest files are UTF-8 whatever the locale of the process: an update run under
+    a non-UTF-8 locale keeps the DIST / IGNORE lines with non-ASCII names."""
+    import subprocess
+    import sys
+    with common.Scratch('vf-c10l-') as d:
+        root = os.path.join(d, 't')
+        os.makedirs(os.path.join(root, 'sub'))
+        for pth, data in (('a', b'1'), ('sub/b', b'22')):
+            with open(os.path.join(root, pth), 'wb') as f:
+                f.write(data)
+        with open(os.path.join(root, 'Manifest'), 'w', encoding='utf8') as f:
+            f.write(mtext.render([
+                mtext.file_entry('DATA', 'a', b'1', ['SHA256']),
+                mtext.file_entry('DATA', 'sub/b', b'stale', ['SHA256']),
+                {'tag': 'IGNORE', 'path': 'za\u017c\xf3\u0142\u0107'},
+                {'tag': 'DIST', 'path': 'g\u0119\u015bl\u0105-1.0.tar.gz', 'size': 1,
+                 'sums': {'MD5': 'ab' * 16}},
+                {'tag': 'TIMESTAMP', 'ts': '2019-03-04T10:00:00Z'}]))
+        mans0 = manifest_state(root)
+        keep0 = lines_of(mans0, 'DIST') + lines_of(mans0, 'IGNORE') + \
+            lines_of(mans0, 'TIMESTAMP')
+        ctx.case(sig=('locale', case['scope'], case['lc']), case=case, klass='locale')
+        ctx.count('locale_cases')
+        env = dict(os.environ, LC_ALL=case['lc'], LANG=case['lc'], PYTHONCOERCECLOCALE='0',
+                   PYTHONUTF8='0')
+        code = ('import sys; sys.path.insert(0, %r); from gemato.cli import main; '
+                'sys.exit(main(%r))' % (common.REPO, [
+                    'gemato', 'update', '--hashes', 'SHA256',
+                    os.path.join(root, case['scope']) if case['scope'] else root]))
+        try:
+            r = subprocess.run([sys.executable, '-c', code], env=env,
+                               capture_output=True, timeout=300)
+        except subprocess.TimeoutExpired:
+            ctx.discarded('update under LC_ALL=%s timed out' % case['lc'])
+            return
+        try:
+            mans1 = manifest_state(root)
+            keep1 = lines_of(mans1, 'DIST') + lines_of(mans1, 'IGNORE') + \
+                lines_of(mans1, 'TIMESTAMP')
+        except Exception as exc:
+            keep1 = collections.Counter()
+        lost = keep0 - keep1
+        if not case['scope']:
+            # (a whole-tree update refreshes an existing TIMESTAMP)
+            lost = collections.Counter({k: v for k, v in lost.items()
+                                        if not k.startswith('TIMESTAMP')})
+        if lost:
+            ctx.violation('DIST-lines-not-preserved:non-utf8-locale', 'update under '
+                          'LC_ALL=%s (exit %r) lost %r: %s' % (
+                              case['lc'], r.returncode, sorted(lost)[:3],
+                              r.stderr.decode('utf8', 'replace')[-200:]), case)
+
+
+def run_locale(u, ctx):
+    for scope in ('', 'sub'):
+        for lc in ('C', 'POSIX'):
+            exec_locale(ctx, {'kind': 'locale', 'scope': scope, 'lc': lc})
+
+
+def run_forcestale(u, ctx):
+    for api in ('cli', 'lib'):
+        exec_forcestale(ctx, {'kind': 'forcestale', 'api': api})
+
+
 def run_adopt(u, ctx):
     n = 0
     for listed in ('manifest', 'data', 'misc', 'none'):
@@ -934,6 +1053,10 @@ def run_unit(u, ctx):
         return run_dangling(u, ctx)
     if u.get('k') == 'signfail':
         return run_signfail(u, ctx)
+    if u.get('k') == 'forcestale':
+        return run_forcestale(u, ctx)
+    if u.get('k') == 'locale':
+        return run_locale(u, ctx)
     if u.get('k') == 'multi':
         for j in range(u['n']):
             run_multi(ctx, common.rng_for(ctx.seed, ID, 'multi', u['i'], j),
@@ -1011,6 +1134,10 @@ def replay(case, ctx):
         return exec_dangling(ctx, case)
     if case.get('kind') == 'signfail':
         return exec_signfail(ctx, case)
+    if case.get('kind') == 'forcestale':
+        return exec_forcestale(ctx, case)
+    if case.get('kind') == 'locale':
+        return exec_locale(ctx, case)
     if case.get('kind') == 'multi':
         ctx.seed = case.get('gen_seed', ctx.seed)
         run_multi(ctx, common.rng_for(ctx.seed, ID, 'multi', case['idx'] // 100,
